@@ -127,4 +127,34 @@ theorem progress_weight {kids : Entry → List (Rat × Nat)} {δ T : Rat} {B : N
   simp only [geom]
   omega
 
+/-! ### The zero-delay DAG class (round 6) -/
+
+/-- the weight of the DAG class: `(B+1)^(N - id)` -/
+def dagWeight (B N : Nat) (q : Entry) : Nat := (B + 1) ^ (N - q.id)
+
+theorem dag_weight {kids : Entry → List (Rat × Nat)} {T : Rat} {B N : Nat}
+    (hB : ∀ e, e.time < T → (kids e).length ≤ B)
+    (hdag : ∀ e, e.time < T → ∀ c ∈ kids e, e.id < c.2 ∧ c.2 < N) :
+    ∀ e c, e.time < T → potential (dagWeight B N) (mkEntries c (kids e)) < dagWeight B N e := by
+  intro e c ht
+  by_cases hk : kids e = []
+  · simp [hk, mkEntries, potential, dagWeight]
+  · obtain ⟨c0, hc0⟩ := List.exists_mem_of_ne_nil _ hk
+    have hlt : e.id < N := by have := hdag e ht c0 hc0; omega
+    obtain ⟨m, hm⟩ : ∃ m, N - e.id = m + 1 := ⟨N - e.id - 1, by omega⟩
+    have hb := potential_le_length_mul (dagWeight B N) (mkEntries c (kids e)) ((B + 1) ^ m) (by
+      intro q hq
+      obtain ⟨p, hp, hpid⟩ : ∃ p ∈ kids e, q.id = p.2 := by
+        have := mem_mkEntries hq
+        exact ⟨_, this.1, rfl⟩
+      have := hdag e ht p hp
+      unfold dagWeight
+      exact Nat.pow_le_pow_right (by omega) (by omega))
+    rw [mkEntries_length] at hb
+    have h2 : (kids e).length * (B + 1) ^ m ≤ B * (B + 1) ^ m := Nat.mul_le_mul_right _ (hB e ht)
+    have hpos : 0 < (B + 1) ^ m := Nat.pow_pos (by omega)
+    unfold dagWeight at hb ⊢
+    rw [hm, pow_succ]
+    nlinarith
+
 end HcipyVerif.Scheduler
